@@ -688,6 +688,9 @@ type AbacoSource struct {
 	readPeriod   time.Duration
 	buffersChan  chan AbacoBuffersType
 	eTrigPackets []*packets.Packet // Unprocessed packets with external trigger info
+	// eTrigLock guards eTrigPackets and the groups' frame-timing data: the reader goroutine fills them in
+	// (distributePackets), the block-assembly goroutine uses them (extractExternalTriggers).
+	eTrigLock sync.Mutex
 
 	unwrapOpts AbacoUnwrapOptions
 	AnySource
@@ -815,6 +818,8 @@ func (as *AbacoSource) Configure(config *AbacoSourceConfig) (err error) {
 
 // distributePackets sorts a slice of Abaco packets into the data queues according to the GroupIndex.
 func (as *AbacoSource) distributePackets(allpackets []*packets.Packet, now time.Time) {
+	as.eTrigLock.Lock()
+	defer as.eTrigLock.Unlock()
 	for _, p := range allpackets {
 		if p.IsExternalTrigger() {
 			as.eTrigPackets = append(as.eTrigPackets, p)
@@ -1151,6 +1156,8 @@ func (as *AbacoSource) getNextBlock() chan *dataBlock {
 }
 
 func (as *AbacoSource) extractExternalTriggers() []int64 {
+	as.eTrigLock.Lock()
+	defer as.eTrigLock.Unlock()
 	externalTriggers := make([]int64, 0)
 	for _, p := range as.eTrigPackets {
 		// These packets have form (u32, u32, u64) repeating, but we don't care about the first 2.
